@@ -657,6 +657,10 @@ func otherParsers(rep *kit.Report, base string) {
 			}
 		}
 	}
+	// the record that ends the request, with every body length from 0 to 9 (a conforming one has 8)
+	for n := 0; n <= 9; n++ {
+		streams = append(streams, append(append(append([]byte{}, okRec...), frec(6, nil)...), frec(3, make([]byte, n))...))
+	}
 	for _, s := range streams {
 		s := s
 		fcgiOut.Store(&s)
